@@ -144,4 +144,21 @@ theorem walk_mono (comps : List Bytes) : ∀ (d d' : Int), d ≤ d' → walk d c
       simp only [hn, hn', if_false] at h ⊢
       exact ih _ _ hs h
 
+/-- The fold over one call's link creations, from any state: what is created /
+reported is decided link by link by the guard alone. -/
+theorem createFold (mode : Mode) (links : List (Bytes × Bytes)) : ∀ s : TState,
+    (links.foldl (createStep mode) s).created =
+        s.created ++ links.filter (fun l => createGuard mode l.1 l.2) ∧
+    (links.foldl (createStep mode) s).problems =
+        s.problems ++ (links.filter (fun l => !createGuard mode l.1 l.2)).map (·.1) := by
+  induction links with
+  | nil => intro s; simp
+  | cons l rest ih =>
+    intro s
+    simp only [List.foldl_cons]
+    obtain ⟨h1, h2⟩ := ih (createStep mode s l)
+    rw [h1, h2]
+    unfold createStep
+    cases hg : createGuard mode l.1 l.2 <;> simp [List.filter_cons, hg]
+
 end Mutagen.Proofs.Symlink
